@@ -75,8 +75,45 @@ func (p *Prog) ResolveAnchors() *Anchors {
 		return a
 	}
 	lp := modPath + "/client."
+	// several fields of one type: the role decides (an added, unrelated mutex or
+	// queue must not unseat the anchor)
+	byUse := map[string]func() *types.Var{
+		"connection mutex": func() *types.Var {
+			// the lock Connected() takes
+			var r *types.Var
+			if f := p.Func(cl, "(*Conn).Connected"); f != nil {
+				funcInstrs(f, func(in ssa.Instruction) {
+					if cc := callOf(in); cc != nil && !cc.IsInvoke() && len(cc.Args) > 0 {
+						if fv, _ := fieldOf(cc.Args[0]); fv != nil && typeString(fv.Type()) == "sync.RWMutex" {
+							r = fv
+						}
+					}
+				})
+			}
+			return r
+		},
+		"outbound queue": func() *types.Var {
+			// the queue Raw sends on
+			var r *types.Var
+			if f := p.Func(cl, "(*Conn).Raw"); f != nil {
+				funcInstrs(f, func(in ssa.Instruction) {
+					if sd, ok := in.(*ssa.Send); ok {
+						if fv, _ := loadedField(sd.Chan); fv != nil && typeString(fv.Type()) == "chan string" {
+							r = fv
+						}
+					}
+				})
+			}
+			return r
+		},
+	}
 	get := func(dst **types.Var, ts, role string) {
 		*dst = uniqueField(a.ConnS, ts)
+		if *dst == nil {
+			if f := byUse[role]; f != nil {
+				*dst = f()
+			}
+		}
 		if *dst == nil {
 			a.miss("Conn field for %s (type %s) not unique/found", role, ts)
 		}
